@@ -44,7 +44,7 @@ func init() {
 		},
 		Bound: func(tier string) string {
 			if tier == "thorough" {
-				return "trees <= 5 nodes over 8 leaves (nil,true,int64,int8,float64,float32,string,time) and keys a,b,c: single-point perturbations with all single and paired ignore sets; trees <= 4 nodes: two-point perturbations with single ignores and cross pairs; scalar alphabet 38x38 in 3 contexts; Match over all member-subset fingerprints"
+				return "trees <= 4 nodes over 8 leaves (nil,true,int64,int8,float64,float32,string,time) plus trees of 5 nodes over 4 leaves (nil,int64,float64,string), keys a,b,c: single-point perturbations with all single and paired ignore sets; trees <= 4 nodes: two-point perturbations with single ignores and cross pairs; scalar alphabet 38x38 in 3 contexts; Match over all member-subset fingerprints"
 			}
 			return "trees <= 4 nodes over 6 leaves (nil,true,int64,int8,float64,string) and keys a,b: single-point perturbations with all single and paired ignore sets; trees <= 3 nodes: two-point perturbations with single ignores and cross pairs; scalar alphabet 38x38 in 3 contexts; Match over all member-subset fingerprints"
 		},
@@ -1333,12 +1333,15 @@ func run(c *core.Ctx) {
 	quick := c.Quick()
 	keys := keyset(quick)
 	lv := leaves(quick)
-	maxN := c.Pick(4, 5)
 	twoN := c.Pick(3, 4)
 	e.scalarFamily()
 	idx := 0
 	sampled := 0
-	gens.Trees(maxN, lv, keys, func(a any) bool {
+	var only int // > 0: only trees with exactly this many nodes
+	visit := func(a any) bool {
+		if only > 0 && nodes(a) != only {
+			return true
+		}
 		idx++
 		if !c.Mine(idx) {
 			return true
@@ -1389,7 +1392,13 @@ func run(c *core.Ctx) {
 			}
 		}
 		return true
-	})
+	}
+	gens.Trees(4, lv, keys, visit)
+	if !quick {
+		// five-node trees: structure matters, leaf kinds are covered above
+		only = 5
+		gens.Trees(5, []any{nil, int64(1), float64(1.5), "s"}, keys, visit)
+	}
 }
 
 func decodeIgn(raw [][]any) [][]any {
